@@ -17,19 +17,20 @@ import (
 // gcase is one grammar of a generated-parser campaign with everything the
 // reference models say about it and everything observed.
 type gcase struct {
-	Idx     int
-	G       *spec.Grammar
-	RG      *ref.Grammar
-	Tab     *ref.Table // nil when the reference could not be built
-	LALR1   bool       // no conflict cell at all
-	Clean   bool       // no don't-care cell (reference table usable for simulation)
-	Inputs  [][]int    // token indices, -1 = undeclared token
-	Member  []bool     // Earley membership
-	Bad     []int      // Earley first bad token index (-1 for sentences)
-	Sims    []ref.SimResult
-	StepLim int
-	Job     *pipe.Job
-	Outs    map[pipe.Variant]*pipe.Out
+	Idx         int
+	G           *spec.Grammar
+	RG          *ref.Grammar
+	Tab         *ref.Table // nil when the reference could not be built
+	LALR1       bool       // no conflict cell at all
+	Clean       bool       // no don't-care cell (reference table usable for simulation)
+	Inputs      [][]int    // token indices, -1 = undeclared token
+	Member      []bool     // Earley membership
+	Bad         []int      // Earley first bad token index (-1 for sentences)
+	Sims        []ref.SimResult
+	StepLim     int
+	Prescreened int
+	Job         *pipe.Job
+	Outs        map[pipe.Variant]*pipe.Out
 }
 
 func (c *gcase) refTokens(in []int) []int {
@@ -313,6 +314,11 @@ func (cp *campaign) run() []Outcome {
 			c := &gcase{Idx: i, G: cp.Make(r, i)}
 			c.prepare()
 			c.genInputs(r, cp.MaxStr, cp.NLong)
+			if pr := getPrio(c.G); len(pr) > 0 {
+				// inputs selected by pre-screening come first (duplicates are harmless)
+				c.Inputs = append(append([][]int{}, pr...), c.Inputs...)
+				c.Prescreened = len(pr)
+			}
 			c.judgeInputs()
 			job := &pipe.Job{ID: i, G: c.G, Variants: cp.Variants(i)}
 			for _, in := range c.Inputs {
@@ -348,6 +354,10 @@ func (cp *campaign) run() []Outcome {
 			o := Outcome{Idx: c.Idx, Status: "held"}
 			o.Replay = map[string]interface{}{"spec": c.G, "grammar_text": c.Job.Text}
 			// common bookkeeping: generation/compile/run failures
+			if c.Prescreened > 0 {
+				o.count("grammars_selected_by_prescreening", 1)
+				o.count("priority_inputs_from_prescreening", c.Prescreened)
+			}
 			cp.common(c, &o)
 			if o.Status == "held" {
 				cp.Judge(c, &o)
@@ -386,43 +396,51 @@ func probeCodes(g *spec.Grammar) []int {
 // failures of usable grammars and compile errors in generated code are left to
 // the properties that own them (C12/C16) but make the case inconclusive here.
 func (cp *campaign) common(c *gcase, o *Outcome) {
+	live := 0
+	var firstFail string
+	fail := func(v pipe.Variant, kind, detail string) {
+		o.count("variant_pairs_failed", 1)
+		o.count("variant_failed:"+string(v)+":"+kind, 1)
+		if firstFail == "" {
+			firstFail = detail
+		}
+	}
 	for _, v := range c.Job.Variants {
 		out := c.Outs[v]
 		if out == nil {
-			o.Status = "inconclusive"
-			o.Detail = "no output record for " + string(v)
-			return
+			fail(v, "no record", "no output record for "+string(v))
+			continue
 		}
 		if out.Skipped != "" {
 			o.count("variant_skipped:"+string(v)+":"+out.Skipped, 1)
 			continue
 		}
-		if !out.GenOK {
-			if cp.Prop == "C16" {
-				continue
+		o.count("variant_pairs_total", 1)
+		switch {
+		case !out.GenOK:
+			if cp.Prop != "C16" {
+				fail(v, "generation refused", fmt.Sprintf("yaccgo generate (%s) failed on a usable grammar: exit %d: %s", v, out.GenExit, trunc(out.GenOut, 600)))
 			}
-			o.Status = "inconclusive"
-			o.Detail = fmt.Sprintf("yaccgo generate (%s) failed on a usable grammar: exit %d: %s", v, out.GenExit, trunc(out.GenOut, 600))
-			return
-		}
-		if out.BuildErr != "" {
-			if cp.Prop == "C16" {
-				continue
+		case out.BuildErr != "":
+			if cp.Prop != "C16" {
+				fail(v, "does not compile", fmt.Sprintf("generated parser (%s) does not compile (in generated code: %v): %s", v, out.InGenCode, trunc(out.BuildErr, 600)))
 			}
-			o.Status = "inconclusive"
-			o.Detail = fmt.Sprintf("generated parser (%s) does not compile (in generated code: %v): %s", v, out.InGenCode, trunc(out.BuildErr, 600))
-			return
+		case out.Resp == nil:
+			if cp.Prop != "C16" {
+				fail(v, "process failed", fmt.Sprintf("parser process (%s) failed: %s", v, trunc(out.RunErr, 1500)))
+			}
+		case len(out.Resp.Results) == 0 || len(out.Resp.Results[0]) != len(c.Inputs):
+			fail(v, "bad response", fmt.Sprintf("parser process (%s) returned %d result lists", v, len(out.Resp.Results)))
+			out.Resp = nil
+		default:
+			live++
 		}
-		if out.Resp == nil {
-			o.Status = "inconclusive"
-			o.Detail = fmt.Sprintf("parser process (%s) failed: %s", v, trunc(out.RunErr, 1500))
-			return
-		}
-		if len(out.Resp.Results) == 0 || len(out.Resp.Results[0]) != len(c.Inputs) {
-			o.Status = "inconclusive"
-			o.Detail = fmt.Sprintf("parser process (%s) returned %d result lists", v, len(out.Resp.Results))
-			return
-		}
+	}
+	if live == 0 && cp.Prop != "C16" {
+		o.Status = "inconclusive"
+		o.Detail = "no variant could be run: " + firstFail
+	} else if firstFail != "" {
+		o.Replay = map[string]interface{}{"spec": c.G, "grammar_text": c.Job.Text, "variant_failure": firstFail}
 	}
 }
 
@@ -458,8 +476,29 @@ func finishPipeline(prop, tier string, seed int64, only int, start time.Time, ou
 	if only >= 0 {
 		rep.MinNontrivial = 0
 	}
+	tot, failed := 0, 0
+	var eg string
+	for _, o := range outs {
+		tot += o.Counters["variant_pairs_total"]
+		failed += o.Counters["variant_pairs_failed"]
+		if eg == "" && o.Counters["variant_pairs_failed"] > 0 {
+			if m, ok := o.Replay.(map[string]interface{}); ok {
+				eg, _ = m["variant_failure"].(string)
+			}
+		}
+	}
+	code := -1
+	if failed*50 > tot {
+		code = 2
+		rep.Notes = append(rep.Notes, fmt.Sprintf("%d of %d (grammar, variant) pairs could not be generated, compiled or run", failed, tot))
+	}
 	if os.Getenv("VERIF_NODE") == "" {
 		rep.Notes = append(rep.Notes, "ts_leg: skipped (no node >= 22 found); the claim covers the Go variants only")
 	}
-	return rep.Finish()
+	rc := rep.Finish()
+	if rc == 0 && code == 2 {
+		fmt.Printf("INCONCLUSIVE property=%s: %d of %d (grammar, variant) pairs could not be generated, compiled or run, e.g. %s\n", prop, failed, tot, trunc(eg, 800))
+		return 2
+	}
+	return rc
 }
